@@ -363,7 +363,8 @@ let next_life_op t : label list =
   | "stop" -> [ECallStop]
   | "connect" -> [EConnect]
   | "send" -> let c = nat_of_int (next_int t) in List.map (fun it -> ESend (c, it)) (next_list t next_item)
-  | "close" -> [EClose (nat_of_int (next_int t))]
+  | "close" | "reset" -> [EClose (nat_of_int (next_int t))]
+  | "sendclose" -> let c = nat_of_int (next_int t) in List.map (fun it -> ESend (c, it)) (next_list t next_item) @ [EClose c]
   | "stall" -> let c = nat_of_int (next_int t) in [EStall (c, next_bool t)]
   | "release" -> [ERelease (nat_of_int (next_int t))]
   | "holdonclose" -> [EHoldOnClose (next_bool t)]
@@ -382,7 +383,7 @@ let cfg_of_string (s : string) : config =
          | "stop_interrupts" -> { c with stop_interrupts = b } | "ready_on_error" -> { c with ready_on_error = b }
          | "close_on_cancel" -> { c with close_on_cancel = b } | "unbind" -> { c with has_unbind_route = b }
          | "onclose" -> { c with has_onclose = b } | "accept_retry" -> { c with accept_retry = b } | "untrack_late" -> { c with untrack_late = b }
-         | "addr" | "tls" | "readtimeout" | "race" -> c     (* worker options, not model parameters *)
+         | "addr" | "tls" | "readtimeout" | "race" | "dflt" -> c     (* worker options, not model parameters *)
          | _ -> failwith ("bad cfg key " ^ k))
       | _ -> failwith "bad cfg kv") base (List.tl parts)
 let kind_char = function KNormal -> "n" | KStartTLS -> "t" | KUnbind -> "u"
